@@ -166,8 +166,17 @@ def recomputed_from_new_nodes(ctx):
         o = ctx.ob("R3.%s.visits-maintenance-looks-at-remaining-nodes" % common.short(key), "T1", key,
                    "%s: the new visits-maintenance flag depends on the nodes that remain in the tour (a second slot may remain)" % common.short(key))
         o.loc = site[0].line()
-        ls = fd.slice_operand_data(site[0], vm_op)["locals"]
-        ctx.decide(o, new_nodes in ls, "flag depends on the new node vector",
+        sl = fd.slice_operand_data(site[0], vm_op)
+        scans = []
+        for d in sl["defs"]:
+            i2 = d.instr
+            if i2 is not None and i2.kind == "call" and (i2.decl == "core::iter::traits::iterator::Iterator::any" or (i2.callee or "").endswith("::any")):
+                cl = set()
+                for a in i2.args:
+                    cl |= fd.slice_operand_pure(i2, a)["atoms"]
+                if call(ND("is_maintenance")) in cl and new_nodes in fd.slice_operand_pure(i2, i2.args[0])["locals"]:
+                    scans.append(i2)
+        ctx.decide(o, bool(scans), "an is_maintenance scan over the new node vector feeds the flag",
                    "the visits-maintenance flag of the new tour does not look at the remaining nodes: removing/displacing one of two "
                    "maintenance slots clears (or keeps) the flag wrongly", loc=site[0].line())
 
@@ -223,6 +232,25 @@ def _preds_closure(fd, bb):
     return seen
 
 
+def tour_cache_rules(ctx, tag="R3"):
+    """the rules about Tour's incrementally maintained figures (shared with C04, C08, C11)"""
+    t_sites = common.sites_of(ctx, TOUR)
+    infinity_guard(ctx, t_sites)
+    source_sets(ctx)
+    recomputed_from_new_nodes(ctx)
+
+
+def cycle_update_rules(ctx):
+    """batched cycle updates and neighbour lookups (shared with C04, C10, C11, C15)"""
+    from .C10 import cycles_follow_vehicles
+    from .C15 import neighbour_wiring, counter_plain_sum
+    before = len(ctx.obligations)
+    cycles_follow_vehicles(ctx, None)
+    ctx.obligations[before:] = [o for o in ctx.obligations[before:] if "batched-updates" in o.id]
+    neighbour_wiring(ctx, "R3")
+    counter_plain_sum(ctx, common.sites_of(ctx, TRANSITION))
+
+
 def rules(ctx):
     s_sites = common.coupled_updates(ctx, "R1", SCHEDULE, common.SCHEDULE_PAIRS, floor=13)
     t_sites = common.coupled_updates(ctx, "R1", TOUR, common.TOUR_PAIRS, floor=5, exempt=common.TOUR_PAIR_EXEMPT)
@@ -235,3 +263,4 @@ def rules(ctx):
     recomputed_from_new_nodes(ctx)
     cost_delta_form(ctx, s_sites)
     formation_update_order(ctx)
+    cycle_update_rules(ctx)
